@@ -186,7 +186,20 @@ fn stall_dir(ds: &DirState) -> Option<Stall> {
             }
         }
     }
-    if ds.s_compio && !ds.sender_done.get() && ds.in_send.get().is_some() {
+    if ds.s_compio && !ds.sender_done.get() && ds.in_notify.get() {
+        // Waiting for the kernel to release a zero-copy buffer: legitimate while
+        // the bytes are unacknowledged, a hang once the send queue is empty.
+        if outq(ds.sdup.get()) == 0 {
+            let sk = ds.in_send.get().map(|k| k.name()).unwrap_or("zc_defer");
+            return Some(Stall::Violation(Fail {
+                sig: format!("C14/stream/stall-zc-buffer/{}/s={sk}", ds.tag),
+                what: format!(
+                    "direction {}: the zero-copy buffer future of {sk} does not resolve although the kernel send queue is empty (all {} accepted bytes acknowledged)",
+                    ds.name, ds.sent.get()
+                ),
+            }));
+        }
+    } else if ds.s_compio && !ds.sender_done.get() && ds.in_send.get().is_some() {
         let sk = ds.in_send.get().map(|k| k.name()).unwrap_or("idle");
         let ev = poll_fd(ds.sfd.get(), libc::POLLOUT);
         if ev & libc::POLLOUT != 0 {
@@ -433,8 +446,11 @@ pub fn generate(r: &mut Rng, g: &GenCfg) -> StreamProg {
     let pool_size = *r.pick(&[1usize, 2, 4, 8, 16]);
     let fwd = gen_dir(r, g, pool_len, pool_size, sndbuf, false);
     // a tiny receive buffer makes TCP crawl on persist timers: keep it for short streams
-    let rcvbuf = if fwd.total > 65536 && rcvbuf > 0 { rcvbuf.max(8192) } else { rcvbuf };
+    let rcvbuf = if fwd.total > 16384 && rcvbuf > 0 && rcvbuf < 65536 { 0 } else { rcvbuf };
     let rev = if conn != ConnMode::Thread && r.chance(3, 10) { Some(gen_dir(r, g, pool_len, pool_size, sndbuf, true)) } else { None };
+    // two receivers share the pool in bidirectional programs and the polling
+    // driver takes buffers when an operation is created
+    let pool_size = if rev.is_some() { pool_size.max(8) } else { pool_size };
     let vias = [Via::Direct, Via::Borrowed, Via::Owned];
     let peer_chunk = if fwd.total <= 4096 { *r.pick(&[1usize, 7, 512, 4096]) } else { *r.pick(&[97usize, 4096, 65536]) };
     StreamProg {
